@@ -7,7 +7,8 @@
 /// Current status: DR7 (FSK) is unimplemented
 use super::*;
 
-const MAX_EIRP: u8 = 16;
+// RP002: 12.15 dBm
+const MAX_EIRP: u8 = 12;
 
 pub(crate) type EU433 = DynamicChannelPlan<EU433Region>;
 
